@@ -851,7 +851,7 @@ def prove(facts, goal_t, timeout_ms):
 def run_symbolic(scen, cfg, lib, limits=None, known=None, prop='?', cfg_name='?'):
     """Explore every path of scen under cfg; discharge every check; replay counterexamples."""
     limits = dict(limits or {})
-    q_timeout = limits.get('query_timeout_ms', 60000)
+    q_timeout = limits.get('query_timeout_ms', 240000)
     max_paths = limits.get('max_paths', 2000)
     res = ConfigResult(config=cfg_name, paths=0, feasible_paths=0, aborted_paths=0, obligations=0, discharged=0,
                        trivial=0, solver_s=0.0, queries=0, violations=[], known_hits=[], inconclusive=[],
